@@ -106,6 +106,65 @@ MUTANTS = [
 ]
 
 
+# Behaviour-preserving refactorings: every check must stay silent on them (exit 0). (name, [(file, old, new), ...])
+BENIGN = [
+    ("ready_queue_as_lists", [("execution/executor.py", "self._sequential_ops: Deque[Operation] = collections.deque()", "self._sequential_ops = []"),
+                              ("execution/executor.py", "self._parallel_ops: Deque[Operation] = collections.deque()", "self._parallel_ops = []"),
+                              ("execution/executor.py", "return self._parallel_ops.popleft()", "return self._parallel_ops.pop(0)"),
+                              ("execution/executor.py", "return self._sequential_ops.popleft()", "return self._sequential_ops.pop(0)")]),
+    ("pipe_byte_and_extra_logging", [("utils/sigchld.py", 'os.write(self._write_pipe, b"\\0")', 'os.write(self._write_pipe, b"x")'),
+                                     ("execution/executor.py", "            self._ready_to_run.load(plan.initial_ops)\n", "            self._ready_to_run.load(plan.initial_ops)\n            print_bold(\"Planned {} task(s).\".format(plan.num_tasks_to_run))\n")]),
+    ("gc_with_os_walk_order", [("cli/gc.py", "        for inner in curr_path.iterdir():", "        for inner in sorted(curr_path.iterdir(), reverse=True):")]),
+    ("restore_copy2_and_sorted_rows", [("cli/restore.py", "shutil.copytree(src_task_path, dest_task_path, symlinks=True)", "shutil.copytree(src_task_path, dest_task_path, symlinks=True, copy_function=shutil.copy2)"),
+                                       ("cli/restore.py", "        for task_id, version in archive_version_index.get_all_versions():", "        for task_id, version in sorted(archive_version_index.get_all_versions(), key=lambda tv: (str(tv[0]), tv[1].timestamp)):")]),
+    ("planner_visited_ids_and_handle_fields", [("execution/handle.py", "        self.slot: Optional[int] = None\n", "        self.slot: Optional[int] = None\n        self.started_at = None\n"),
+                                               ("task_types/run.py", "        if at_least_commit is None:\n            # There already is", "        if not at_least_commit:\n            # There already is")]),
+    ("loader_iterative_to_explicit_copy", [("parsing/task_index.py", "                for dep in self._loaded_tasks[identifier].deps:\n                    if dep in visited_identifiers:\n                        continue\n                    identifiers_to_load.append((dep, 0))",
+                                            "                pending = [dep for dep in self._loaded_tasks[identifier].deps if dep not in visited_identifiers]\n                identifiers_to_load.extend((dep, 0) for dep in pending)")]),
+]
+
+
+def run_benign():
+    import shutil
+    checks = ["C%02d" % i for i in range(1, 21)]
+    sel = [a for a in sys.argv[1:] if not a.startswith("--")]
+    bad = 0
+    for name, edits in BENIGN:
+        if sel and not any(a in name for a in sel):
+            continue
+        base = "/dev/shm/cvben_%s" % name
+        shutil.rmtree(base, ignore_errors=True)
+        shutil.copytree(os.path.join(REPO, "src"), os.path.join(base, "src"), ignore=shutil.ignore_patterns("__pycache__", "static"), symlinks=True)
+        ok = True
+        for rel, old, new in edits:
+            path = os.path.join(base, "src/conductor", rel)
+            src = open(path).read()
+            if old not in src:
+                print("BENIGN %s: pattern not found in %s" % (name, rel))
+                ok = False
+                break
+            open(path, "w").write(src.replace(old, new, 1))
+            if run("/venv/bin/python -m py_compile %s" % path).returncode != 0:
+                print("BENIGN %s: does not compile" % name)
+                ok = False
+                break
+        if ok:
+            t = run("cd %s && PYTHONPATH=%s/src /venv/bin/python -m pytest -q -p no:cacheprovider -x tests/task_identifier_test.py tests/validation_test.py tests/version_index_migration_test.py" % (REPO, base))
+            for c in checks:
+                t0 = time.time()
+                r = run("cd /verif && VERIF_SUBJECT_SRC=%s/src timeout 1800 ./check %s --tier quick" % (base, c))
+                drift = sum(1 for l in r.stdout.splitlines() if l.startswith("MODEL-DRIFT"))
+                flag = "ok" if r.returncode == 0 else "ALARM rc=%d" % r.returncode
+                if r.returncode != 0:
+                    bad += 1
+                print("BENIGN %-40s %s -> %s drift=%d (%.0fs) %s" % (name, c, flag, drift, time.time() - t0,
+                                                                  " | ".join(l.strip()[:160] for l in (r.stdout + r.stderr).splitlines() if "clause=" in l or "MACHINERY" in l)[:400]))
+                sys.stdout.flush()
+        shutil.rmtree(base, ignore_errors=True)
+    print("benign: %d alarms" % bad)
+    return 0
+
+
 def run(cmd, **kw):
     return subprocess.run(cmd, shell=True, capture_output=True, text=True, **kw)
 
@@ -139,6 +198,8 @@ def run_on_copy(name, rel, old, new, props):
 
 
 def main():
+    if "--benign" in sys.argv:
+        return run_benign()
     if "--copy" in sys.argv:
         args = [a for a in sys.argv[1:] if not a.startswith("--")]
         props_override = None
